@@ -244,10 +244,51 @@ fn toy_history(
     };
     let handles: Vec<MyHandle> = (0..entities)
         .map(|i| MyHandle::from_str(&format!("e{i}")).unwrap()).collect();
-    for hdl in &handles {
-        store_a.add(SentInitCommand::new(hdl.clone(), LogInitDetails, &actor))
-            .expect("add");
+    // creation is a command too: the first entity is created by all
+    // threads at once (through both store instances); exactly one of them
+    // may be told that it created the entity
+    let mut created_ok = 0usize;
+    let mut create_errs: Vec<String> = vec![];
+    for (i, hdl) in handles.iter().enumerate() {
+        if i > 0 {
+            store_a.add(SentInitCommand::new(hdl.clone(), LogInitDetails, &actor))
+                .expect("add");
+            continue
+        }
+        let barrier = Arc::new(std::sync::Barrier::new(threads));
+        let mut cj = vec![];
+        for t in 0..threads {
+            let store = if t % 2 == 1 { store_b.clone() } else { store_a.clone() };
+            let hdl = hdl.clone();
+            let actor = actor.clone();
+            let barrier = barrier.clone();
+            cj.push(std::thread::spawn(move || {
+                TL_ID.with(|x| x.set(t as u64 + 1));
+                barrier.wait();
+                store.add(SentInitCommand::new(hdl, LogInitDetails, &actor))
+                    .map(|a| a.version).map_err(|e| e.to_string())
+            }));
+        }
+        for j in cj {
+            match j.join() {
+                Ok(Ok(_)) => created_ok += 1,
+                Ok(Err(e)) => create_errs.push(e),
+                Err(_) => create_errs.push("panic".into()),
+            }
+        }
     }
+    r.count("concurrent_creations", 1);
+    if created_ok != 1 {
+        return Some((
+            "entity-created-more-than-once".into(),
+            format!("{threads} threads created entity e0 at the same time: \
+                     {created_ok} of them were told they created it \
+                     (errors: {:?})", create_errs.iter().take(3).collect::<Vec<_>>()),
+            json!({"memory": memory, "threads": threads,
+                   "two_stores": two_stores}),
+        ))
+    }
+    if let Ok(mut l) = SITE_LOG.lock() { l.clear() }
     let desc = json!({"memory": memory, "threads": threads,
         "per_thread": per_thread, "entities": entities,
         "two_stores": two_stores, "history_cache": history_cache});
